@@ -11,7 +11,7 @@ use crate::{
 };
 use std::collections::{BTreeSet, HashMap, HashSet};
 
-use super::{quoted_string_literal, CrateTypes};
+use super::{doc_lines, quoted_string_literal, CrateTypes};
 
 /// All information needed to generate Go type-code
 #[derive(Default)]
@@ -575,13 +575,8 @@ func ({short_name} {full_name}) MarshalJSON() ([]byte, error) {{
 fn write_comment(w: &mut dyn Write, indent: usize, comment: &str) -> std::io::Result<()> {
     // A doc comment written as `/** .. */` or `#[doc = ".."]` may span lines: every line
     // has to be a comment line of its own.
-    for line in comment.split('\n') {
-        writeln!(
-            w,
-            "{}// {}",
-            "\t".repeat(indent),
-            line.trim_end_matches('\r')
-        )?;
+    for line in doc_lines(comment) {
+        writeln!(w, "{}// {}", "\t".repeat(indent), line)?;
     }
     Ok(())
 }
